@@ -29,6 +29,30 @@ theorem sender_test_is_peer_reserve (f : Reserves) (b : Nat) :
     senderReserveOk f b = true ↔ f.counterparty_selected_channel_reserve_satoshis * 1000 ≤ b := by
   unfold senderReserveOk; simp
 
+/-! ### which HTLCs each side prices
+
+`signed` = the HTLCs in the commitment the funder signs together with its update_fee (everything both know, plus the
+funder's own announced adds); `held` = further adds the funder still holds back; `buffer` = CONCURRENT_INBOUND_HTLC_FEE_BUFFER;
+`crossing` = adds of the FUNDEE that the funder has not seen yet (they cross the update_fee on the wire): they are not part
+of the commitment being signed. -/
+
+def senderCount (signed held buffer : Nat) : Nat := signed + (if senderIncludesUnknownHtlcs then held else 0) + buffer
+def receiverCount (signed crossing : Nat) : Nat := signed + (if receiverIncludesUnknownHtlcs then crossing else 0)
+
+/-- However many fundee adds cross the update_fee, the fundee prices no more HTLCs than the funder did (so, the commitment
+    fee being monotone in the number of HTLCs, the funder's balance as the fundee computes it is at least the one the funder
+    tested: the hypothesis `bal_sender ≤ bal_receiver` of `update_fee_reserve_accepted`), and exactly the signed ones. -/
+theorem receiver_prices_only_the_signed_commitment (signed held buffer crossing : Nat) :
+    receiverCount signed crossing = signed ∧ receiverCount signed crossing ≤ senderCount signed held buffer := by
+  unfold receiverCount senderCount
+  have hr : receiverIncludesUnknownHtlcs = false := by decide
+  simp only [hr]
+  constructor
+  · simp
+  · simp only [Bool.false_eq_true, if_false, Nat.add_zero]; omega
+
+example : receiverCount 4 3 = 4 ∧ senderCount 4 1 2 = 7 := by decide
+
 -- non-vacuity, with asymmetric reserves (the peer demands 10 %, we demand 1 % of a 1 000 000 sat channel)
 example : Mirrored ⟨10000, 100000⟩ ⟨100000, 10000⟩ := ⟨rfl, rfl⟩
 example : senderReserveOk ⟨10000, 100000⟩ 100000000 = true ∧ receiverReserveOk ⟨100000, 10000⟩ 100000000 = true := by decide
